@@ -456,6 +456,9 @@ double Integrate_MC_Vegas(std::function<double(std::vector<double>&, const doubl
 				break;
 		}
 		tsi *= dv2g;
+		// The variance estimate of integrands of very small magnitude (below about 1e-150) underflows. Its inverse, the weight of this iteration, must stay finite (also when summed over the iterations).
+		if(tsi < 1.0e-300)
+			tsi = 1.0e-300;
 		wgt = 1.0 / tsi;
 		si += wgt * ti;
 		schi += wgt * ti * ti;
